@@ -145,6 +145,40 @@ func serverCmd(out *cq.Out, seed uint64, tier string) {
 				events, snaps = append(events, evs...), append(snaps, sns...)
 			}
 		}
+		// every (event, version) pair over HTTP, both endpoints, the version always sent explicitly (0 included)
+		if len(events) > 0 {
+			cur := uint64(len(events) - 1)
+			pairs := 0
+			for i := 0; i < len(events) && pairs < 400; i++ {
+				for q := uint64(i); q <= cur && pairs < 400; q++ {
+					if len(events) > 12 && i > 2 && q != uint64(i) && q != cur && rng.Intn(8) != 0 {
+						continue // the pairs around version 0 and the diagonal / last column always, the rest sampled
+					}
+					pairs++
+					d := hashing.NewSha256Hasher().Do(events[i])
+					qq := q
+					for _, ep := range []string{"/proofs/membership", "/proofs/digest-membership"} {
+						var body interface{} = protocol.MembershipQuery{Key: events[i], Version: &qq}
+						if ep == "/proofs/digest-membership" {
+							body = protocol.MembershipDigest{KeyDigest: d, Version: &qq}
+						}
+						st, rb, err := post(ep, body)
+						var mr protocol.MembershipResult
+						ok := err == nil && st == 200 && json.Unmarshal(rb, &mr) == nil
+						if ok {
+							ok = mr.Exists && mr.QueryVersion == q && protocol.ToBalloonProof(&mr, hashing.NewSha256Hasher).DigestVerify(d, &balloon.Snapshot{EventDigest: d, HistoryDigest: snaps[q].HistoryDigest, HyperDigest: snaps[cur].HyperDigest, Version: q})
+						}
+						if !ok {
+							out.Violate("C01:http-proof-does-not-verify", fmt.Sprintf("POST %s for event %d at version %d of a %d-event log: status %d, err %v, exists=%v, answered query version %d; the proof does not verify against snapshot(%d).history / snapshot(%d).hyper", ep, i, q, len(events), st, err, mr.Exists, mr.QueryVersion, q, cur), desc)
+							pairs = 1 << 30
+							break
+						}
+					}
+					out.Case(fmt.Sprintf("http-pair:%d:%d", life, pairs%64), true)
+				}
+			}
+			out.Count("http_membership_pairs", 1)
+		}
 		for i, sn := range snaps {
 			if sn.Version != uint64(i) {
 				out.Violate("C08:version-not-dense-across-restart:server", fmt.Sprintf("across server restarts the %d-th acknowledged insertion carries version %d", i, sn.Version), desc)
